@@ -23,7 +23,9 @@
 (* One run of compaction is the sequence                                   *)
 (*   Start(entry point) ; CleanupTemp? ; OpenCreate ; HeaderTemp+ ;        *)
 (*   WriteTemp* ; SyncTemp ; CloseTemp ; Rename                            *)
-(* and may be ended at any step by Skip (thresholds), Abort (an error) or  *)
+(* and may be ended at any step by Skip (thresholds), Abort (an error, e.g. *)
+(* a failed write or fsync of the temp file: the swamp file stays as it    *)
+(* is, the temp file is removed or left behind) or                         *)
 (* Crash (process death, or power failure which drops what is not          *)
 (* durable).  Whatever the crash leaves behind is the stale temp file of   *)
 (* the next run, and the initial temp file is arbitrary (StaleTemps).      *)
@@ -157,8 +159,10 @@ WriteTemp(es) ==
   /\ last' = Obs("WriteTemp")
   /\ UNCHANGED <<main, ref, pc, ep, idx, appends, runs>>
 
+\* (on an error path the writer is closed, hence synced, before the temp file is thrown away: a sync may
+\* come while entries are still missing; only Rename insists on completeness)
 SyncTemp ==
-  /\ pc = "writing" /\ todo = {}
+  /\ pc = "writing"
   /\ temp' = [temp EXCEPT !.dur = Len(temp.ents)]
   /\ pc' = "synced"
   /\ last' = Obs("SyncTemp")
@@ -169,9 +173,11 @@ CloseTemp ==
   /\ last' = Obs("CloseTemp")
   /\ UNCHANGED <<main, temp, ref, ep, idx, todo, appends, runs>>
 
-\* the temp file atomically replaces the swamp file
+\* the temp file atomically replaces the swamp file - only once it is complete, durable and closed
 Rename ==
-  /\ pc = "closed"
+  /\ pc = "closed" /\ todo = {}
+  /\ temp.dur = Len(temp.ents)
+  /\ temp.hdr = 2 \/ "StaleTempAppend" \in Dev     \* (as built, a leftover with a broken header is appended to and renamed)
   /\ main' = temp /\ temp' = NoFile
   /\ EndRun /\ last' = Obs("Rename")
 
@@ -229,7 +235,7 @@ TempOnlyLive ==
   pc \in {"writing", "synced", "closed"} =>
      \A i \in DOMAIN temp.ents : temp.ents[i][1] \in Keys /\ temp.ents[i][2] = idx[temp.ents[i][1]] /\ temp.ents[i][2] > 0
 \* only a complete, durable temp file is ever renamed over the swamp
-RenameOnlyDurable == pc = "closed" => temp.hdr = 2 /\ temp.dur = Len(temp.ents)
+RenameOnlyDurable == last.a = "Rename" => main.hdr = 2 /\ main.dur = Len(main.ents)
 
 Bounded == appends <= MaxAppends /\ runs <= MaxRuns
 =============================================================================
